@@ -3,6 +3,7 @@ package c02
 import (
 	"encoding/hex"
 	"fmt"
+	"reflect"
 	"runtime"
 	"testing"
 
@@ -74,7 +75,35 @@ func TestDecodeTotalBounded(t *testing.T) {
 	rapid.Check(t, func(rt *rapid.T) {
 		c := serixgen.NewCase(rt, cfg())
 		v, _ := serixgen.GenValue(rt, c.Root, serixgen.ValidMode, cfg())
-		ref := serixgen.RefEncode(c.Root, v, false)
+		decodeTotalBody(rt, check, c.Root.String(), c.Root, c.Decode, v)
+	})
+}
+
+// TestTopLevelDecodeTotal: the same oracle for top-level objects (collections, strings, leaves, interface values,
+// pointers) whose settings are passed with the Decode call (serix.WithTypeSettings).
+func TestTopLevelDecodeTotal(t *testing.T) {
+	const check = "serix_toplevel_decode_total"
+	stats.Rule(check, "as serix_decode_total_bounded, but the destination of Decode is a top-level object: named pool collection, unnamed slice / map / array / string / byte slice with settings passed by serix.WithTypeSettings, leaf, pointer to an interface, pool struct, custom deserializable, coded byte-array pointer. Same inputs (structure-aware mutations of the valid encoding, the valid encoding, raw bytes) and the same oracle (no panic, n <= len, allocation cap, metamorphic L -> 16L). Distinct by (kind, shape, input); non-trivial as there")
+	rapid.Check(t, func(rt *rapid.T) {
+		c := serixgen.NewCaseWithTop(rt, cfg())
+		v, _ := serixgen.GenValue(rt, c.Top, serixgen.ValidMode, cfg())
+		stats.Label(check, "top:"+c.TopKind)
+		decodeTotalBody(rt, check, c.TopKind+" "+c.Top.String(), c.Top, c.DecodeTop, v)
+	})
+}
+
+func decodeTotalBody(rt *rapid.T, check, schema string, n *serixgen.Node, decode func([]byte, bool) serixgen.Outcome, v reflect.Value) {
+	fail := func(ex map[string]any, format string, a ...any) {
+		msg := fmt.Sprintf(format, a...)
+		p := map[string]any{"schema": schema, "problem": msg}
+		for k, x := range ex {
+			p[k] = x
+		}
+		stats.Violation(check, p)
+		rt.Fatalf("%s: %s\nschema: %s\nextra: %v", check, msg, schema, ex)
+	}
+	{
+		ref := serixgen.RefEncode(n, v, false)
 		var mut serixgen.Mutation
 		if ref.Reject != "" {
 			mut = serixgen.Mutation{B: rapid.SliceOfN(rapid.Byte(), 0, 48).Draw(rt, "raw"), Label: "raw_random", HostileOff: -1}
@@ -96,20 +125,20 @@ func TestDecodeTotalBounded(t *testing.T) {
 			// warm-up: the first decode of a freshly built reflect type fills reflect's and serix' type caches (the harness
 			// creates thousands of types per process, and reflect's internal sync.Maps re-copy themselves as they grow);
 			// a decoder that allocates from a length field does so on every call, so the second call is measured
-			out := c.Decode(input, validate)
+			out := decode(input, validate)
 			if out.Panic != nil {
-				violation(rt, check, c, ex, "Decode panicked: %v", out.Panic)
+				fail(ex, "Decode panicked: %v", out.Panic)
 			}
-			alloc := measure(func() { out = c.Decode(input, validate) })
+			alloc := measure(func() { out = decode(input, validate) })
 			if out.Panic != nil {
-				violation(rt, check, c, ex, "Decode panicked: %v", out.Panic)
+				fail(ex, "Decode panicked: %v", out.Panic)
 			}
 			if out.N < 0 || out.N > len(input) {
-				violation(rt, check, c, ex, "Decode reports %d consumed bytes for an input of %d bytes (err=%v)", out.N, len(input), out.Err)
+				fail(ex, "Decode reports %d consumed bytes for an input of %d bytes (err=%v)", out.N, len(input), out.Err)
 			}
 			if alloc > allocCap(len(input)) {
 				ex["allocated_bytes"] = alloc
-				violation(rt, check, c, ex, "Decode allocated %d bytes for a %d-byte input (cap %d): allocation follows a length field, not the input", alloc, len(input), allocCap(len(input)))
+				fail(ex, "Decode allocated %d bytes for a %d-byte input (cap %d): allocation follows a length field, not the input", alloc, len(input), allocCap(len(input)))
 			}
 			if out.Err == nil {
 				labels = append(labels, fmt.Sprintf("accepted(validate=%v)", validate))
@@ -126,12 +155,12 @@ func TestDecodeTotalBounded(t *testing.T) {
 				if wide, ok := widen(input, mut.HostileOff, mut.HostileW); ok {
 					var out2 serixgen.Outcome
 					// the first decode of a shape fills the struct-field cache: re-measure the L input warm, then 16L
-					alloc = measure(func() { _ = c.Decode(input, validate) })
-					alloc2 := measure(func() { out2 = c.Decode(wide, validate) })
+					alloc = measure(func() { _ = decode(input, validate) })
+					alloc2 := measure(func() { out2 = decode(wide, validate) })
 					labels = append(labels, "metamorphic_pair")
 					if out2.Panic != nil {
 						ex["input"] = hex.EncodeToString(wide)
-						violation(rt, check, c, ex, "Decode panicked: %v", out2.Panic)
+						fail(ex, "Decode panicked: %v", out2.Panic)
 					}
 					// one-directional: a larger over-long length may lead to an earlier rejection (less work), never to
 					// more allocation, because the work a correct decoder does is bounded by the bytes it can consume
@@ -140,13 +169,13 @@ func TestDecodeTotalBounded(t *testing.T) {
 					if int64(alloc2)-int64(alloc) > allocIndependenceSlack+int64(len(input)) {
 						ex["input_16x"] = hex.EncodeToString(wide)
 						ex["allocated"] = []uint64{alloc, alloc2}
-						violation(rt, check, c, ex, "allocation depends on an over-long length field: %d bytes for L, %d bytes for 16L", alloc, alloc2)
+						fail(ex, "allocation depends on an over-long length field: %d bytes for L, %d bytes for 16L", alloc, alloc2)
 					}
 				}
 			}
 		}
-		stats.Case(check, nt, c.Root.String()+"|"+hex.EncodeToString(input), func() any {
-			return map[string]any{"schema": c.Root.String(), "input": hex.EncodeToString(input), "mutation": mut.Label}
+		stats.Case(check, nt, schema+"|"+hex.EncodeToString(input), func() any {
+			return map[string]any{"schema": schema, "input": hex.EncodeToString(input), "mutation": mut.Label}
 		}, labels...)
-	})
+	}
 }
